@@ -568,8 +568,29 @@ func modeComparison(info *types.Info, cond ast.Expr) (string, bool) {
 
 // witnessCircuitType: the circuit type of the assignment passed to frontend.NewWitness in fn.
 func witnessCircuitType(fn *ssa.Function) *types.Named {
-	if fn == nil || fn.Blocks == nil {
+	return witnessTypeIn(fn, nil, 0)
+}
+
+// witnessTypeIn finds the circuit type whose assignment fn turns into a witness: the dynamic type of frontend.NewWitness's
+// first argument, in fn itself or in an in-repo function it calls, following an interface-typed parameter back to what the
+// caller passes (proveAssignment(circuit frontend.Circuit) shared by both provers).
+func witnessTypeIn(fn *ssa.Function, bind map[*ssa.Parameter]types.Type, depth int) *types.Named {
+	if fn == nil || fn.Blocks == nil || depth > 3 {
 		return nil
+	}
+	dyn := func(v ssa.Value) types.Type {
+		for {
+			switch x := v.(type) {
+			case *ssa.MakeInterface:
+				return x.X.Type()
+			case *ssa.ChangeInterface:
+				v = x.X
+				continue
+			case *ssa.Parameter:
+				return bind[x]
+			}
+			return nil
+		}
 	}
 	for _, b := range fn.Blocks {
 		for _, in := range b.Instrs {
@@ -578,11 +599,34 @@ func witnessCircuitType(fn *ssa.Function) *types.Named {
 				continue
 			}
 			callee := c.Common().StaticCallee()
-			if callee == nil || callee.Pkg == nil || callee.Pkg.Pkg.Path() != "github.com/consensys/gnark/frontend" || callee.Name() != "NewWitness" {
+			if callee == nil {
 				continue
 			}
-			if mi, ok := c.Common().Args[0].(*ssa.MakeInterface); ok {
-				return namedOf(mi.X.Type())
+			if callee.Pkg != nil && callee.Pkg.Pkg.Path() == "github.com/consensys/gnark/frontend" && callee.Name() == "NewWitness" {
+				if t := dyn(c.Common().Args[0]); t != nil {
+					return namedOf(t)
+				}
+				continue
+			}
+			cpkg := callee.Pkg
+			if cpkg == nil && callee.Origin() != nil {
+				cpkg = callee.Origin().Pkg
+			}
+			if cpkg != nil && core.InRepo(cpkg.Pkg.Path()) && callee.Blocks != nil && callee != fn {
+				cb := map[*ssa.Parameter]types.Type{}
+				for i, prm := range callee.Params {
+					if i < len(c.Common().Args) {
+						if t := dyn(c.Common().Args[i]); t != nil {
+							cb[prm] = t
+						}
+					}
+				}
+				// only descend when something type-carrying is handed on, or at the top level
+				if len(cb) > 0 || depth == 0 {
+					if n := witnessTypeIn(callee, cb, depth+1); n != nil {
+						return n
+					}
+				}
 			}
 		}
 	}
